@@ -69,6 +69,21 @@ def well_conditioned(model, T, h=1e-3, origins=()):
         return False
 
 
+def additive(model, T1, T2, origins):
+    """does the external heat-capacity model integrate additively from the lower limits the library's functors use (T_ref, Tm, Tb)?
+    (tabulated / piecewise models of the data package integrate by quadrature and are additive only to ~1e-7; the wiring identity then says nothing about thermosteam)"""
+    try:
+        iH = model.T_dependent_property_integral(T1, T2); iS = model.T_dependent_property_integral_over_T(T1, T2)
+        for T0_ in origins:
+            if T0_ is None or not (T0_ == T0_) or T0_ <= 0: continue
+            h2 = model.T_dependent_property_integral(T0_, T2); s2 = model.T_dependent_property_integral_over_T(T0_, T2)
+            aH = h2 - model.T_dependent_property_integral(T0_, T1); aS = s2 - model.T_dependent_property_integral_over_T(T0_, T1)
+            if not (abs(aH - iH) <= 1e-10 * max(abs(iH), abs(h2), 1.0) and abs(aS - iS) <= 1e-10 * max(abs(iS), abs(s2), 1.0)): return False
+        return True
+    except Exception:
+        return False
+
+
 def check_pure(c, rec, case, tag, synthetic=False):
     ref = c.phase_ref
     Tref, Pref = c.T_ref, c.P_ref
@@ -100,16 +115,10 @@ def check_pure(c, rec, case, tag, synthetic=False):
                 iH = Cn.T_dependent_property_integral(T1, T2); iS = Cn.T_dependent_property_integral_over_T(T1, T2)
             except Exception:
                 rec.refuse('model integral unavailable'); continue
-            if case.get('wide'):
-                # grids spanning a whole model range: the external model must itself integrate additively from the reference temperature
-                # (piecewise / tabulated models of the data package sometimes do not); otherwise the identity says nothing about thermosteam
-                try:
-                    aH = Cn.T_dependent_property_integral(Tref, T2) - Cn.T_dependent_property_integral(Tref, T1)
-                    aS = Cn.T_dependent_property_integral_over_T(Tref, T2) - Cn.T_dependent_property_integral_over_T(Tref, T1)
-                    if not (abs(aH - iH) <= 1e-10 * max(abs(iH), abs(Cn.T_dependent_property_integral(Tref, T2)), 1.0) and abs(aS - iS) <= 1e-10 * max(abs(iS), abs(Cn.T_dependent_property_integral_over_T(Tref, T2)), 1.0)):
-                        rec.refuse('external heat-capacity model does not integrate additively over its range: wiring clause not judged'); continue
-                except Exception:
-                    rec.refuse('model integral unavailable'); continue
+            # the external model must itself integrate additively from the limits the functors use (T_ref, Tm, Tb); piecewise / tabulated
+            # models of the data package sometimes do not, and then the identity says nothing about thermosteam
+            if not synthetic and not additive(Cn, T1, T2, (Tref, c.Tm, c.Tb)):
+                rec.refuse('external heat-capacity model does not integrate additively over its range: wiring clause not judged'); continue
             scale = max(abs(c.H(ph, T2, P)), abs(c.H(ph, T1, P)), abs(iH), 1.0)
             rec.check(abs(dH - iH) <= 1e-8 * scale, 'integral-wiring', f'H/{tag}', f'{c.ID} ref {ref} phase {ph}: H({T2})-H({T1}) = {dH!r} but integral of Cn = {iH!r}', residual=abs(dH - iH) / scale)
             sscale = max(abs(c.S(ph, T2, P)), abs(iS), 1.0)
@@ -243,6 +252,8 @@ def check_locked(k, rec, case, tag, unlocked=None):
             iH = Cn.T_dependent_property_integral(T1, T2); iS = Cn.T_dependent_property_integral_over_T(T1, T2)
         except Exception as e:
             rec.exception('evaluate', e, what=f'{k.ID} locked at {ph}: H/S raised {type(e).__name__}: {str(e)[:120]} inside the range of its heat-capacity model'); break
+        if not additive(Cn, T1, T2, (Tref, k.Tm, k.Tb)):
+            rec.refuse('external heat-capacity model does not integrate additively over its range: wiring clause not judged'); continue
         scale = max(abs(k.H(T2, P)), abs(k.H(T1, P)), abs(iH), 1.0)
         rec.check(abs(dH - iH) <= 1e-8 * scale, 'integral-wiring', f'H/locked-{ph}/{tag}', f'{k.ID} locked at {ph}: H({T2})-H({T1}) = {dH!r} but integral of Cn = {iH!r}', residual=abs(dH - iH) / scale)
         sscale = max(abs(k.S(T2, P)), abs(iS), 1.0)
